@@ -17,12 +17,19 @@ pub fn lm_from_case(case: &Value) -> LinearModel {
     };
     let mut names = vec![];
     let mut domain: IndexMap<String, DomainVariable> = IndexMap::new();
-    for v in case["vars"].as_array().unwrap() {
+    // the domain is a map by name: the order of its entries carries no meaning.  `domorder: "rev"`
+    // fills it in the reverse of the column order (the compiler, too, keeps declaration order there
+    // while it sorts the columns).
+    let vars: Vec<&Value> = case["vars"].as_array().unwrap().iter().collect();
+    for v in &vars {
+        names.push(v["name"].as_str().unwrap().to_string());
+    }
+    let order: Vec<&&Value> = if case["domorder"] == "rev" { vars.iter().rev().collect() } else { vars.iter().collect() };
+    for v in order {
         let name = v["name"].as_str().unwrap().to_string();
         let mut dv = DomainVariable::new(vtype_from(v), InputSpan::default());
         dv.increment_usage();
-        domain.insert(name.clone(), dv);
-        names.push(name);
+        domain.insert(name, dv);
     }
     let rows: Vec<LinearConstraint> = case["rows"]
         .as_array()
